@@ -262,14 +262,26 @@ class MiniMallocate(RewritePattern):
                 buffers.append(buffer)
                 buffer_ops[buffer.id] = op
 
-                # add uses to the use list
-                for use in op.results[0].uses:
-                    use_op = get_top_level_op(use.operation)
-                    uses[use_op].append(buffer)
-                    if isinstance(use.operation, builtin.UnrealizedConversionCastOp):
-                        for cast_use in use.operation.results[0].uses:
-                            cast_use_op = get_top_level_op(cast_use.operation)
-                            uses[cast_use_op].append(buffer)
+                # add uses to the use list. Follow every value derived from the buffer: results of
+                # casts, memref-typed results of other users (subview, layout / memory space casts, ...)
+                # and memref-typed results of the top-level op around a nested user (scf.if yielding a view)
+                worklist: list[SSAValue] = [op.results[0]]
+                seen: set[SSAValue] = set(worklist)
+                while worklist:
+                    for use in worklist.pop().uses:
+                        use_op = get_top_level_op(use.operation)
+                        uses[use_op].append(buffer)
+                        derived = [
+                            r
+                            for r in (*use.operation.results, *use_op.results)
+                            if isinstance(r.type, builtin.MemRefType | builtin.UnrankedMemRefType)
+                        ]
+                        if isinstance(use.operation, builtin.UnrealizedConversionCastOp):
+                            derived.extend(use.operation.results)
+                        for value in derived:
+                            if value not in seen:
+                                seen.add(value)
+                                worklist.append(value)
 
             if op in uses:
                 # udpate lifetime of buffer
